@@ -93,7 +93,7 @@ var lprofiles = map[string]*lprofile{
 	"C09": {prop: "C09", noNone: true, qmax: 0, quickCases: 1500, thorCases: 30000},
 	"C10": {prop: "C10", qmax: 3000, quickCases: 1000, thorCases: 20000, raceCases: 400, overLimit: true},
 	"C13": {prop: "C13", qmax: 2000, quickCases: 1000, thorCases: 20000, overLimit: true},
-	"C14": {prop: "C14", kinds: []string{"i8", "i16", "i32", "i64"}, qmax: 1500, quickCases: 1600, thorCases: 30000},
+	"C14": {prop: "C14", kinds: []string{"i8", "i16", "i32", "i64"}, qmax: 1500, quickCases: 1600, thorCases: 30000, raceCases: 200},
 	"C18": {prop: "C18", qmax: 0, quickCases: 1500, thorCases: 60000},
 }
 
@@ -243,7 +243,7 @@ func (p *lprofile) caseAt(ctx *Ctx, idx int) (*LCase, *ExhSpace, [][]int) {
 	}
 	idx -= len(dir) * 2
 	if idx < numBig(ctx.Tier) {
-		if ctx.BuildMode == "race" {
+		if ctx.BuildMode == "race" || ctx.BuildMode == "asan" {
 			return &LCase{Family: "big:skipped-in-race-pass", Keys: nil, Vals: genVals(r, "none", 0, 0), QMax: p.qmax, R: r}, nil, nil
 		}
 		ks := genBig(r, idx)
@@ -290,7 +290,7 @@ func (p *lprofile) caseAt(ctx *Ctx, idx int) (*LCase, *ExhSpace, [][]int) {
 	if ctx.Tier == "thorough" {
 		scale = 1
 	}
-	if ctx.BuildMode == "race" {
+	if ctx.BuildMode == "race" || ctx.BuildMode == "asan" {
 		scale = 2
 	}
 	ks := genKeySet(r, scale)
